@@ -151,6 +151,8 @@ def _gc_cache(cache_root, keep, max_entries=40):
     try:
         ents = [(os.path.getmtime(os.path.join(cache_root, d)), d)
                 for d in os.listdir(cache_root) if d != keep]
+        # an entry touched in the last 20 minutes may be in use by a check running concurrently on another tree
+        ents = [e for e in ents if time.time() - e[0] > 1200]
         ents.sort()
         import shutil
         while len(ents) > max_entries - 1:
